@@ -465,11 +465,11 @@ m("C19-pop-if-clear-before-test", "C19", "may_queue/src/mpsc_list_v1.rs",
             }
 
             // clear the link bit
-            assert!((*tail).refs & REF_COUNT_MASK != 0);
-            (*tail).refs &= REF_COUNT_MASK;""",
+            assert!((*tail).refs.load(Ordering::Acquire) & REF_COUNT_MASK != 0);
+            (*tail).refs.fetch_and(REF_COUNT_MASK, Ordering::AcqRel);""",
   """            // clear the link bit
-            assert!((*tail).refs & REF_COUNT_MASK != 0);
-            (*tail).refs &= REF_COUNT_MASK;
+            assert!((*tail).refs.load(Ordering::Acquire) & REF_COUNT_MASK != 0);
+            (*tail).refs.fetch_and(REF_COUNT_MASK, Ordering::AcqRel);
 
             let v = (*next).value.as_ref().unwrap();
             if !f(v) {
